@@ -189,6 +189,26 @@ impl Objects {
         Self::construct(specs, None, true)
     }
 
+    /// Every own step of a scenario carries the same text (steps are then told
+    /// apart by their position only).
+    pub fn new_same_steps(specs: &[FeatureSpec]) -> Self {
+        let mut o = Self::construct(specs, None, false);
+        for (_, _, sc, steps) in o.scens.values_mut() {
+            let mut g: gherkin::Scenario = (**sc).clone();
+            let nbg = steps.len() - g.steps.len();
+            for st in &mut g.steps {
+                st.value = "the button is pressed".to_owned();
+            }
+            for (k, st) in steps.iter_mut().enumerate() {
+                if k >= nbg {
+                    st.value = "the button is pressed".to_owned();
+                }
+            }
+            *sc = Source::new(g);
+        }
+        o
+    }
+
     fn construct(specs: &[FeatureSpec], deco: Option<&str>, twin: bool) -> Self {
         let mut feats = HashMap::new();
         let mut rules = HashMap::new();
